@@ -51,7 +51,7 @@ FIELDS = {
     "pixel_horz_size": ("geometry", 0.0, 1000.0, False, False, ALL),
     "pixel_scale": ("geometry", 0.0, 1000.0, False, False, ALL),
 }
-CLASSES = ("far_below", "below", "lower", "inside", "upper", "above")
+CLASSES = ("far_below", "below", "lower", "inside", "upper", "above", "nan")
 PATHS = ("ctor", "yaml", "setter", "processor_set", "sweep")
 
 
@@ -61,6 +61,8 @@ def f_is_bits(field):
 
 def class_value(field, cls):
     _sec, lo, hi, lo_open, integer, _ = FIELDS[field]
+    if cls == "nan":  # not a number: outside every range (written as the text "nan" in the case, turned into a float by the body)
+        return None if integer else "nan"
     if cls == "far_below":
         return 0 if f_is_bits(field) else (lo - 100)
     if integer:
@@ -73,6 +75,8 @@ def class_value(field, cls):
 
 def in_range(field, v):
     _sec, lo, hi, lo_open, _i, _ = FIELDS[field]
+    if v != v:
+        return False
     if v < lo or (lo_open and v == lo):
         return False
     return hi is None or v <= hi
@@ -114,6 +118,8 @@ def body_grid(case, rec):
     from vprobes import models as P
 
     f, v, path, typ = case["field"], case["value"], case["path"], case["type"]
+    if v == "nan":
+        v = float("nan")
     sec = FIELDS[f][0]
     ok_expected = in_range(f, v)
     rec.cls(f"path:{path}", f"class:{case['cls']}", f"field:{f}")
@@ -141,13 +147,13 @@ def body_grid(case, rec):
             det = keep(build_detector(spec))
             setattr(getattr(det, sec), f, v)
             got = getattr(getattr(det, sec), f)
-            if got != v:
+            if got != v and not (got != got and v != v):
                 raise AssertionError(f"setter stored {got!r} instead of {v!r}")
         elif path == "processor_set":
             proc = Processor(detector=keep(build_detector(spec)), pipeline=build_pipeline(pipe_spec))
             proc.set(key, v)
             got = proc.get(key)
-            if got != v:
+            if got != v and not (got != got and v != v):
                 raise AssertionError(f"Processor.set stored {got!r} instead of {v!r}")
         else:
             obs = Observation(parameters=[ParameterValues(key=key, values=[v])], readout=Readout(times=[1.0]))
@@ -161,6 +167,22 @@ def body_grid(case, rec):
         return
     except Exception as exc:  # noqa: BLE001
         raised = exc
+    if case["cls"] == "nan":
+        # Whether "not a number" is inside a documented range is not settled by the statement (pyxel itself accepts it for some quantities and
+        # refuses it for others). What the statement does fix is that "the same limits apply" on every path: the verdict of this path must be
+        # the verdict of the constructor for the same quantity.
+        if path == "ctor":
+            return
+        s2 = copy.deepcopy(spec)
+        s2[sec][f] = v
+        try:
+            build_detector(s2)
+            ctor_refuses = False
+        except Exception:  # noqa: BLE001
+            ctor_refuses = True
+        rec.check((raised is not None) == ctor_refuses, f"limits_differ_between_paths:{f}:{path}",
+                  f"{f}=nan on {typ}: the constructor {'refuses' if ctor_refuses else 'accepts'} it, {path} {'refuses' if raised is not None else 'accepts'} it")
+        return
     if ok_expected:
         rec.check(raised is None, f"in_range_value_refused:{f}:{path}", f"{f}={v!r} ({case['cls']}) via {path} on {typ}: {raised!r}")
     else:
